@@ -4,7 +4,7 @@
 Require Extraction.
 Require Import ExtrOcamlBasic.
 From MC Require Import Model.Base Model.Generated Model.Store Model.Memc Model.Codec
-  Model.Handler Model.Conn Model.Run Model.Conc.
+  Model.Handler Model.Conn Model.Run Model.Conc Model.Server.
 From Coq Require Import NArith Strings.Byte.
 
 Extraction Language OCaml.
@@ -12,5 +12,6 @@ Extraction "model.ml"
   Run.init_world Run.init_world_at Run.step Run.status_code Run.event Run.world
   Store.s_mem Store.s_usage Store.s_now Store.s_cas Store.r_ts Store.total
   Conn.cn_buf Conn.cn_skip
+  Server.new_server Server.sv_step Server.mem_nat Server.sv_active
   Conc.run_sched Conc.mprog_of Conc.new_thread Conc.th_done Conc.mop Conc.op Conc.opres Conc.shared
   N.add N.mul N.div_eucl N.of_nat N.to_nat Byte.to_N Byte.of_N Base.blen.
